@@ -130,6 +130,18 @@ def _case(draw):
         src = "\n\n".join(parts)
         sem = next((x for x in sems if browser_bad(x)), sems[0])
         return {"kind": "template", "src": src, "cfg": cfg, "sem": sem, "nonraw": anynonraw, "n": len(parts)}
+    if k == 7 and d.chance(0.5):
+        # a rejected inline construct directly followed by something that does resolve: the rejected one must still be
+        # there as literal text (not swallowed by whatever follows it)
+        scheme = d.pick([x for x in SCHEMES if browser_bad(x + ":x")])
+        sem = scheme + d.pick([tl for tl in TAILS if browser_bad(scheme + tl)])
+        form = d.pick(["bare", "bare", "angle"])
+        body, _nonraw = spell(d, sem, form)
+        raw = "<" + body + ">" if form == "angle" else body
+        construct = d.pick(["[b]({u})", "![b]({u})", "[b]({u} \"t\")", "[b]( {u} )", "[b]({u} 't')"]).replace("{u}", raw)
+        follow = d.pick(["[r]", "[r][r]", "[][r]", "[x][r]", "(v)", "<http://ok.example/>", "![i](/ok)", "[c](/ok)", "[r] [r]", "[R]"])
+        cfg2 = d.pick([C.simple("commonmark"), C.simple("js-default"), C.simple("commonmark", html=False)])
+        return {"kind": "rejected-followed", "src": d.pick(["", "x "]) + construct + follow + d.pick(["", " y"]) + "\n\n[r]: /ok\n", "construct": construct, "cfg": cfg2, "sem": sem, "nonraw": True}
     if k == 7:
         src = "<" + d.pick(EMAIL_LOCALS) + d.pick(["", d.pick(EMAIL_LOCALS)]) + "@" + d.pick(["example.com", "b.c", "xn--n3h.net", "a-b.c", "B.C"]) + ">"
         return {"kind": "email", "src": src, "cfg": cfg, "sem": "mailto:", "nonraw": False}
@@ -230,6 +242,17 @@ def check(case) -> Res:
         out_off = off.render(src)
         if out != out_off:
             res.fail("rejected-construct-not-literal", f"render={out!r} but with the link rules off={out_off!r}")
+    if kind == "rejected-followed":
+        off = C.build(cfg)
+        off.disable(["link", "image", "autolink", "linkify", "reference"], True)
+        strip = lambda h: html.unescape(re.sub(r"<[^<>]*>", "", h)).strip()  # noqa: E731
+        alone = md.parse(case["construct"])
+        if not any(True for _ in urls(alone)):
+            lit = strip(off.render(case["construct"]))
+            got = strip(out)
+            res.cls.append("rejected-followed:checked")
+            if lit not in got:
+                res.fail("rejected-construct-dropped", f"the rejected construct renders {lit!r} on its own, but the text of render({src!r}) is {got!r}")
     sem = case.get("sem", "")
     res.nt = (browser_bad(sem) and case.get("nonraw", False)) or sem.lower().startswith("data:image") or (kind == "doc" and found > 0) or kind == "email"
     return res
